@@ -93,3 +93,23 @@ func VerifGroups() []*Group {
 	sort.Slice(gs, func(i, j int) bool { return gs[i].name < gs[j].name })
 	return gs
 }
+
+// VerifPeek reads the admission-relevant state WITHOUT taking g.mu; it is
+// meant to be called from client callbacks that AddClient invokes while it
+// holds the lock (so the view is the one the admission decision was based on).
+func (g *Group) VerifPeek() (locked bool, members []string, ops int, max int, autolock, autokick bool) {
+	locked = g.locked != nil
+	for id, c := range g.clients {
+		members = append(members, id)
+		for _, p := range c.Permissions() {
+			if p == "op" {
+				ops++
+			}
+		}
+	}
+	sort.Strings(members)
+	if g.description != nil {
+		max, autolock, autokick = g.description.MaxClients, g.description.Autolock, g.description.Autokick
+	}
+	return
+}
